@@ -684,6 +684,9 @@ func checkC15() *checkDef {
 				// run-time change of the memory budget / size limit / cleanup interval racing stores and a cycle
 				ps = append(ps, sched{Name: "budget-change-vs-store/" + be, cp: cp{Backend: be, Shards: 32, Limit: 100000, Interval: 1000}, Prop: "C15",
 					Init: []string{"S:a:20"}, Threads: [][]string{{"B:50", "L:5000"}, {"S:c:20", "G:a"}}, Final: []string{"T", "Q", "S:d:20"}})
+				// the entry handed back by a store is used by its caller while another request renews the stored one
+				ps = append(ps, sched{Name: "returned-entry-vs-metadata-update/" + be, cp: cp{Backend: be, Shards: 32, Limit: 100000, Interval: 1000}, Prop: "C15",
+					Init: []string{"S:a:10"}, Threads: [][]string{{"S:a:20"}, {"U:a", "G:a"}}, Final: []string{"Q"}})
 				ps = append(ps, sched{Name: "overwrites-vs-eviction-scan/" + be, cp: cp{Backend: be, Shards: 32, Limit: 500, Interval: 1000}, Prop: "C15",
 					Init: []string{"S:a:200", "S:c:200", "S:d:200", "T"}, Threads: [][]string{{"S:a:20", "S:c:20", "S:d:20"}}, Final: []string{"Q"}})
 			}
